@@ -414,3 +414,5 @@ V("c13-bisect-right-over-ends", "C13", CE, [("from functools import lru_cache\n"
 V("c13-benign-bisect-left-over-ends", "C13", CE, [("from functools import lru_cache\n", "from bisect import bisect_left, bisect_right\nfrom functools import lru_cache\n"),
   ("    _table = CELL_WIDTHS\n    lower_bound = 0\n    upper_bound = len(_table) - 1\n    index = (lower_bound + upper_bound) // 2\n    while True:\n        start, end, width = _table[index]\n        if codepoint < start:\n            upper_bound = index - 1\n        elif codepoint > end:\n            lower_bound = index + 1\n        else:\n            return 0 if width == -1 else width\n        if upper_bound < lower_bound:\n            break\n        index = (lower_bound + upper_bound) // 2\n    return 1",
    "    _ends = [end for _start, end, _width in CELL_WIDTHS]\n    index = bisect_left(_ends, codepoint)\n    if index < len(CELL_WIDTHS):\n        start, _end, width = CELL_WIDTHS[index]\n        if codepoint >= start:\n            return 0 if width == -1 else width\n    return 1")], None, None)
+V("c14-table-no-columns-guard-dropped", "C14", "rich/table.py", "        columns = self.columns\n        if not columns:\n            return []\n", "        columns = self.columns\n", "R14.9")
+V("c14-benign-table-no-columns-len", "C14", "rich/table.py", "        columns = self.columns\n        if not columns:\n            return []\n", "        columns = self.columns\n        if len(columns) == 0:\n            return []\n", None)
